@@ -158,6 +158,29 @@ theorem style_declarations_win (a a' : Attrs) (st : String) (assigned : List (St
       | none => Attrs.get (Attrs.del a "style") k :=
   CascadeP.applyStyles_declarations_win a a' st assigned rest hst hp h k
 
+/-- C05 (a container's style is inherited property by property — `_attrib_to_pass_on` after fix a1858b9): what a group or
+    the root reads as its own attributes before handing them down has, for every property, the value of the last declaration
+    of its `style` attribute, and the presentation attribute only where the style is silent — so a child's own value can win
+    or lose against each property separately, not against the style attribute as a whole -/
+theorem container_style_spelled_out (u : Nat) (t : String) (a : Attrs) (cs : List Node) (st : String)
+    (assigned : List (String × String)) (rest : String) (own : Attrs)
+    (hst : Attrs.get a "style" = some st) (hsh : (Gen.shapeFields.lookup (Node.stripNs t)).isSome = false)
+    (hp : Style.parseDecls (fun _ => true) (fun _ => true) st = .ok (assigned, rest))
+    (h : Cascade.ownAttribForPassOn (.elem u t a cs) = .ok own) (k : String) :
+    Attrs.get own k = match CascadeP.lastDecl k assigned with
+      | some v => some v
+      | none => Attrs.get (Attrs.del a "style") k := by
+  unfold Cascade.ownAttribForPassOn at h
+  simp only [Node.attrs, Node.tag, hst, hsh, Bool.false_eq_true, if_false, hp, bind, Except.bind, pure, Except.pure] at h
+  injection h with h
+  subst h
+  have : (fun (m : Attrs) (x : String × String) => match x with | (k, v) => Attrs.set m k v)
+      = (fun m d => Style.setKV m d.1 d.2) := by
+    funext m d; obtain ⟨x, y⟩ := d; rfl
+  unfold Attrs.get
+  rw [this]
+  exact CascadeP.declarations_win assigned _ k
+
 /-- C05 (inheritance): an element's own fill / fill-rule / stroke… wins over what its ancestors hand down … -/
 theorem own_value_wins (attrib child : Attrs) (name : String) (h : Attrs.has child name = true) :
     Cascade.applyHandler "_inherit_copy" attrib child name = .ok child := CascadeP.own_value_wins attrib child name h
